@@ -417,6 +417,97 @@ func checkProcessMap(c *report.Ctx) {
 		})
 	}
 	c.Check("R-LOCK", T+".processMap", "the process table is read and written under its lock", len(bad) == 0 && n >= 3, token.NoPos, n, "%d accesses; unguarded: %v", n, uniq(bad))
+
+	// entries are never removed one by one (a Kill or Terminate naming a process that already exited must still
+	// find it and succeed); only Stop replaces the whole table
+	var deleters []string
+	var dpos token.Pos
+	for _, f := range repoFuncs(c) {
+		for _, call := range an.CallsTo(f, "builtin.delete") {
+			if fr, k := an.AsField(an.Strip(call.Common().Args[0], false)); k && fr.Struct == T && fr.Field == "processMap" {
+				deleters = append(deleters, an.FuncName(f))
+				if dpos == token.NoPos {
+					dpos = an.InstrPos(call)
+				}
+			}
+		}
+	}
+	c.Check("R-WHO", T+".processMap/no-entry-removed", "no function deletes an entry of the process table (exited processes stay known, so that killing one succeeds instead of reporting an unknown name)", len(deleters) == 0, dpos, 1, "deleting functions: %v", deleters)
+
+	// the table lock is never held across a wait: everything that can block (a channel receive, a blocking
+	// select, waiting for a process) runs with the lock released, otherwise one slow Kill stalls every other
+	// Exec, Kill and Terminate
+	blocking := map[*ssa.Function]bool{}
+	var sup []*ssa.Function
+	for _, f := range repoFuncs(c) {
+		if strings.HasPrefix(an.FuncName(f), "L/supervisor.") {
+			sup = append(sup, f)
+		}
+	}
+	isBlockingOp := func(in ssa.Instruction) bool {
+		switch x := in.(type) {
+		case *ssa.Select:
+			return x.Blocking
+		case *ssa.UnOp:
+			return x.Op == token.ARROW
+		case *ssa.Call:
+			return oneOf(an.Callee(x), "os/exec.Cmd.Wait", "os.Process.Wait", "sync.WaitGroup.Wait", "time.Sleep")
+		}
+		return false
+	}
+	for changed := true; changed; {
+		changed = false
+		for _, f := range sup {
+			if blocking[f] {
+				continue
+			}
+			an.AllInstrs(f, func(in ssa.Instruction) {
+				if blocking[f] {
+					return
+				}
+				if isBlockingOp(in) {
+					blocking[f] = true
+				} else if call, ok := in.(*ssa.Call); ok {
+					if sc := call.Call.StaticCallee(); sc != nil && blocking[sc] {
+						blocking[f] = true
+					}
+				}
+				if blocking[f] {
+					changed = true
+				}
+			})
+		}
+	}
+	var stalls []string
+	var spos token.Pos
+	nb := 0
+	for _, f := range sup {
+		if an.FuncName(f) == "L/supervisor.LocalSupervisor.Stop" {
+			continue // Stop is the end of the supervisor: it deliberately holds the table while it reaps everything
+		}
+		held := an.NewHeld(f)
+		an.AllInstrs(f, func(in ssa.Instruction) {
+			blk := isBlockingOp(in)
+			if call, ok := in.(*ssa.Call); ok && !blk {
+				if sc := call.Call.StaticCallee(); sc != nil && blocking[sc] {
+					blk = true
+				}
+			}
+			if !blk {
+				return
+			}
+			nb++
+			for p := range held.At(in) {
+				if strings.HasSuffix(p, ".processMapLock") {
+					stalls = append(stalls, an.FuncName(f))
+					if spos == token.NoPos {
+						spos = an.InstrPos(in)
+					}
+				}
+			}
+		})
+	}
+	c.Check("R-LOCK", T+".processMapLock/not-held-across-waits", "the process table lock is released before anything that can wait (channel receive, blocking select, process wait)", len(stalls) == 0 && nb >= 2, spos, nb, "waiting operations in the package: %d; reached with the lock held in: %v", nb, uniq(stalls))
 }
 
 var _ = report.Discharged
